@@ -1,50 +1,99 @@
 """Sidecar contracts for monkeytype/encoding.py and util.py: the decode chain (C10: stale rows raise MonkeyTypeError only)."""
 from pyvc.registry import contract
 
-TH = ["cli", "types", "values", "events"]
+TH = ["cli", "types", "values", "events", "enc", "path"]
 
+_PARTS = "str_split_(qualname, '.')"
 contract("monkeytype.util:get_name_in_module", props=["C10", "C08"], theories=TH,
          params={"module": "str", "qualname": "str", "attr_getter": "Opt[Getter]"}, result="Obj",
-         raises={"NameLookupError": None},
-         loops={0: {"iter": "qualname.split('.')", "inv": {"true": "true"}}},
-         note="assumes: importing a stored module either succeeds or raises ModuleNotFoundError; attribute access either succeeds or raises AttributeError")
+         # the object found by importing the module and following the dotted name; NameLookupError exactly when some step is missing
+         ensures={"post:lookup": "result is lookup_(module, qualname)", "post:resolvable": "resolvable(module, qualname)"},
+         raises={"NameLookupError": "not resolvable(module, qualname)"},
+         loops={0: {"iter": "qualname.split('.')",
+                    "inv": {"obj": "obj is walk_(imported_(module), %s, _i)" % _PARTS,
+                            "found": "forall(range_(0, _i), lambda q: has_attr(walk_(imported_(module), %s, q), nth(%s, q)))" % (_PARTS, _PARTS)}}},
+         note="assumes: importing a stored module either succeeds or raises ModuleNotFoundError; attribute access either succeeds or raises AttributeError; a caller-supplied attr_getter behaves like getattr")
 
+from contracts._texts import _FN_OF, _BAD
 contract("monkeytype.util:get_func_in_module", props=["C10", "C08"], theories=TH,
          params={"module": "str", "qualname": "str"}, result="Obj",
-         ensures={"post:not-none-unless-unwrapped": "true"},
-         raises={"MonkeyTypeError": None})
+         lets={"o": "unwrapped_(lookup_(module, qualname))"},
+         # the function behind the name: the object itself, or the function a method / read-only property / cached_property wraps
+         ensures={"post:function": "result is " + _FN_OF, "post:resolvable": "resolvable(module, qualname)", "post:kind": "not (%s)" % _BAD},
+         raises={"MonkeyTypeError": "not resolvable(module, qualname) or " + _BAD.replace("(o)", "(unwrapped_(lookup_(module, qualname)))")})
 
+_ENC = "exists_ty(lambda t: {g}wf_st(t) and encodes({d}, t) and reveal_enc({d}, t))"
 contract("monkeytype.encoding:typed_dict_from_dict", props=["C10", "C08"], theories=TH, scc="decode", decreases=["jdepth(d)", "0"],
          params={"d": "JDict"}, result="Ty",
-         requires={"encoded": "jhas(d, 'qualname') and jhas(d, 'elem_types') and is_dictlike_(jget(d, 'elem_types'))"},
-         assumes={"well-formed-rows": "forall_v(lambda e: implies(jdepth(e) < jdepth(d), jhas(e, 'module') and jhas(e, 'qualname') and is_str_(jget(e, 'module')) and is_str_(jget(e, 'qualname'))"
-                                      " and implies(jhas(e, 'is_typed_dict') and truthy_(jget(e, 'is_typed_dict')), jhas(e, 'elem_types') and is_dictlike_(jget(e, 'elem_types')))))"},
-         raises={"MonkeyTypeError": None})
+         # "Given a dictionary produced by type_to_dict": d is the wire form of some (structurally well-formed) TypedDict class
+         requires={"encoded": _ENC.format(g="is_tdmeta(t) and ", d="d")},
+         # C08: a wire form of an importable TypedDict class decodes to a structurally equal class, and does decode
+         hints={"name": "forall_ty(lambda t: implies(is_tdmeta(t) and dec_of(d, t), td_name(t) is td_name(result)))",
+                "dictlike": "is_dictlike_(td_ann(result))",
+                "keys-1": "forall_ty(lambda t: implies(is_tdmeta(t) and dec_of(d, t), forall(td_ann(t), lambda k: has(td_ann(result), k))))",
+                "keys-2": "forall_ty(lambda t: implies(is_tdmeta(t) and dec_of(d, t), forall(td_ann(result), lambda k: has(td_ann(t), k))))",
+                "keys": "forall_ty(lambda t: implies(is_tdmeta(t) and dec_of(d, t), forall_v(lambda k: has(td_ann(t), k) == has(td_ann(result), k))))",
+                "vals": "forall_ty(lambda t: implies(is_tdmeta(t) and dec_of(d, t), forall(td_ann(t), lambda k: teq(lookup(td_ann(t), k), lookup(td_ann(result), k)))))"},
+         ensures={"post:roundtrip": "forall_ty(lambda t: implies(is_tdmeta(t) and dec_of(d, t), teq(t, result)))", "post:not-none": "result is not None"},
+         raises={"MonkeyTypeError": "not exists_ty(lambda t: is_tdmeta(t) and dec_of(d, t))"})
 
 contract("monkeytype.encoding:type_from_dict", props=["C10", "C08"], theories=TH, scc="decode", decreases=["jdepth(d)", "1"],
          params={"d": "JDict"}, result="Ty",
-         requires={"encoded": "jhas(d, 'module') and jhas(d, 'qualname') and is_str_(jget(d, 'module')) and is_str_(jget(d, 'qualname'))",
-                   "encoded-td": "implies(jhas(d, 'is_typed_dict') and truthy_(jget(d, 'is_typed_dict')), jhas(d, 'elem_types') and is_dictlike_(jget(d, 'elem_types')))"},
-         assumes={"well-formed-rows": "forall_v(lambda e: implies(jdepth(e) < jdepth(d), jhas(e, 'module') and jhas(e, 'qualname') and is_str_(jget(e, 'module')) and is_str_(jget(e, 'qualname'))"
-                                      " and implies(jhas(e, 'is_typed_dict') and truthy_(jget(e, 'is_typed_dict')), jhas(e, 'elem_types') and is_dictlike_(jget(e, 'elem_types')))))"},
-         raises={"MonkeyTypeError": None},
-         note="assumes the row was produced by the encoder (every nested type dict has module/qualname) and that a name which still denotes a generic accepts the stored arguments")
+         requires={"encoded": _ENC.format(g="", d="d")},
+         # C08: the wire form of any structurally well-formed, importable type decodes to a structurally equal type (and decoding
+         # raises MonkeyTypeError only for what is not such a wire form - C10: nothing else is ever raised)
+         hints=dict({"lookup-ctor": "forall_ty(lambda t: implies(dec_of(d, t) and has_args_(t), lookup_(jget(d, 'module'), jget(d, 'qualname')) is ctor_of(t)))",
+                     "elems-len": "forall_ty(lambda t: implies(dec_of(d, t) and has_args_(t), len(L_elem_types) == len(args(t))))",
+                     "elems": "forall_ty(lambda t: implies(dec_of(d, t) and has_args_(t), forall(range_(0, len(args(t))), lambda i: teq(nth(args(t), i), nth(L_elem_types, i)))))"},
+                    **{"case-%s" % k_: "forall_ty(lambda t: implies(dec_of(d, t) and kind(t) is K_%s, teq(t, result)))" % k_
+                       for k_ in ("Any", "Class", "List", "Set", "Dict", "DefaultDict", "Tuple", "Type", "Iterator", "Generator", "Callable", "Union", "TD", "NamedTD")}),
+         ensures={"post:roundtrip": "forall_ty(lambda t: implies(dec_of(d, t), teq(t, result)))", "post:not-none": "result is not None"},
+         raises={"MonkeyTypeError": "not exists_ty(lambda t: dec_of(d, t))"},
+         note="precondition: the dict was produced by the encoder for some type (whose classes need not exist any more); assumes that a name which still denotes a generic accepts the stored arguments")
 
-_WFALL = {"well-formed-rows": "forall_v(lambda e: jhas(e, 'module') and jhas(e, 'qualname') and is_str_(jget(e, 'module')) and is_str_(jget(e, 'qualname'))"
-                              " and implies(jhas(e, 'is_typed_dict') and truthy_(jget(e, 'is_typed_dict')), jhas(e, 'elem_types') and is_dictlike_(jget(e, 'elem_types'))))"}
-_NOTE = "assumes the stored JSON was produced by the encoder (every type dict has module / qualname; TypedDict entries have elem_types)"
+_NOTE = "precondition: the stored JSON was produced by the encoder"
 contract("monkeytype.encoding:type_from_json", props=["C10", "C08"], theories=TH, params={"typ_json": "strp"}, result="Ty",
-         assumes=_WFALL, raises={"MonkeyTypeError": None}, note=_NOTE)
+         requires={"encoded": _ENC.format(g="", d="json_loads_(typ_json)")}, note=_NOTE,
+         ensures={"post:roundtrip": "forall_ty(lambda t: implies(dec_of(json_loads_(typ_json), t), teq(t, result)))", "post:not-none": "result is not None"},
+         raises={"MonkeyTypeError": "not exists_ty(lambda t: dec_of(json_loads_(typ_json), t))"})
+_ENCA = "exists_args(lambda A: encodes_args({d}, A) and wf_args_(A))"
 contract("monkeytype.encoding:arg_types_from_json", props=["C10", "C08"], theories=TH, params={"arg_types_json": "strp"}, result="Dict[str,Ty]",
-         assumes=dict(_WFALL, **{"args-object": "is_dictlike_(json_loads_(arg_types_json))"}), raises={"MonkeyTypeError": None}, note=_NOTE)
+         requires={"encoded": _ENCA.format(d="json_loads_(arg_types_json)")}, note=_NOTE,
+         hints={"dictlike": "is_dictlike_(result)",
+                "keys-1": "forall_args(lambda A: implies(args_dec_of(json_loads_(arg_types_json), A), forall(A, lambda k: has(result, k))))",
+                "keys-2": "forall_args(lambda A: implies(args_dec_of(json_loads_(arg_types_json), A), forall(result, lambda k: has(A, k))))",
+                "keys": "forall_args(lambda A: implies(args_dec_of(json_loads_(arg_types_json), A), forall_v(lambda k: has(A, k) == has(result, k))))",
+                "vals": "forall_args(lambda A: implies(args_dec_of(json_loads_(arg_types_json), A), forall(A, lambda k: teq(lookup(A, k), lookup(result, k)))))"},
+         ensures={"post:roundtrip": "forall_args(lambda A: implies(args_dec_of(json_loads_(arg_types_json), A), teq_args(A, result)))"},
+         raises={"MonkeyTypeError": "not exists_args(lambda A: args_dec_of(json_loads_(arg_types_json), A))"})
 contract("monkeytype.encoding:maybe_decode_type", props=["C10", "C08"], theories=TH, params={"decode": "Decoder", "encoded": "Opt[str]"}, result="Opt[Ty]",
-         ensures={"post:absent": "implies(encoded is None or encoded == 'null', result is None)"},
-         raises={"MonkeyTypeError": None},
+         requires={"text": "encoded is None or is_str_(encoded)"},
+         # C08: an absent type (NULL column, or the JSON literal null) stays absent; anything else is what the decoder makes of it
+         ensures={"post:absent": "implies(encoded is None or encoded == 'null', result is None)",
+                  "post:present": "implies(not (encoded is None or encoded == 'null'), result is apply1_(decode, encoded) and not fn_raises_(decode, encoded))"},
+         raises={"MonkeyTypeError": "encoded is not None and encoded != 'null' and fn_raises_(decode, encoded)"},
          note="assumes the decoder passed in raises MonkeyTypeError only (true of type_from_json, proved)")
+_ABSENT = "({x} is None or {x} == 'null')"
+_ROWJ = "json_loads_(unboxs(self.{f}))"
+_OKT = "exists_ty(lambda t: dec_of(%s, t))"
 contract("monkeytype.encoding:CallTraceRow.to_trace", props=["C10", "C08"], theories=TH, params={"self": "Row"}, result="Trace", pure=False,
-         modifies=["func", "arg_types", "return_type", "yield_type"],
+         modifies=["func", "arg_types", "return_type", "yield_type"], uses=["monkeytype.encoding:type_from_json"],
+         # the row was written by MonkeyType's encoder (for types / functions that need not exist any more)
+         requires={"strings": "is_str_(self.module) and is_str_(self.qualname) and is_str_(self.arg_types) and (self.return_type is None or is_str_(self.return_type))"
+                              " and (self.yield_type is None or is_str_(self.yield_type))",
+                   "args-encoded": _ENCA.format(d=_ROWJ.format(f="arg_types")),
+                   "return-encoded": "%s or %s" % (_ABSENT.format(x="self.return_type"), _ENC.format(g="", d=_ROWJ.format(f="return_type"))),
+                   "yield-encoded": "%s or %s" % (_ABSENT.format(x="self.yield_type"), _ENC.format(g="", d=_ROWJ.format(f="yield_type")))},
          # C10: whatever the stored row refers to - a removed module / function / class, a name that is no longer a function or a type -
-         # decoding either succeeds or raises MonkeyTypeError, never anything else
-         raises={"MonkeyTypeError": None},
-         ensures={"post:absent-return": "implies(self.return_type is None, result.return_type is None)",
-                  "post:absent-yield": "implies(self.yield_type is None, result.yield_type is None)"})
+         # decoding either succeeds or raises MonkeyTypeError, never anything else; C08: and it raises only for what cannot be looked up
+         raises={"MonkeyTypeError": "not resolvable(self.module, self.qualname) or %s" % _BAD.replace("(o)", "(unwrapped_(lookup_(self.module, self.qualname)))")
+                                    + " or not exists_args(lambda A: args_dec_of(%s, A))" % _ROWJ.format(f="arg_types")
+                                    + " or (not %s and not %s)" % (_ABSENT.format(x="self.return_type"), _OKT % _ROWJ.format(f="return_type"))
+                                    + " or (not %s and not %s)" % (_ABSENT.format(x="self.yield_type"), _OKT % _ROWJ.format(f="yield_type"))},
+         ensures={"post:func": "result.func is get_func_in_module(self.module, self.qualname)",
+                  "post:args": "forall_args(lambda A: implies(args_dec_of(%s, A), teq_args(A, result.arg_types)))" % _ROWJ.format(f="arg_types"),
+                  # an absent return / yield (NULL, or the JSON literal null) stays absent; a present one decodes to a structurally equal type
+                  "post:absent-return": "implies(%s, result.return_type is None)" % _ABSENT.format(x="self.return_type"),
+                  "post:absent-yield": "implies(%s, result.yield_type is None)" % _ABSENT.format(x="self.yield_type"),
+                  "post:return": "implies(not %s, result.return_type is not None and forall_ty(lambda t: implies(dec_of(%s, t), teq(t, result.return_type))))" % (_ABSENT.format(x="self.return_type"), _ROWJ.format(f="return_type")),
+                  "post:yield": "implies(not %s, result.yield_type is not None and forall_ty(lambda t: implies(dec_of(%s, t), teq(t, result.yield_type))))" % (_ABSENT.format(x="self.yield_type"), _ROWJ.format(f="yield_type"))})
